@@ -298,9 +298,6 @@ def run_case(case, seed):
                     kind = "reflection" if G.det(g) < 0 else "rotation"
                     bad(f"C05/covariance/{_topop(term)}/{kind}", f"term does not transform with its declared type {(r0.k, r0.parity)} under g={g.tolist()} (flags {flags})", term)
                     failed = True
-                if tuple(rg.is_torus) != perm_axes(flags, g) and not failed:
-                    bad(f"C05/flags/{_topop(term)}", "result flags are not the operands' flags", term)
-                    failed = True
                 if G.det(g) < 0 and not np.array_equal(exp, base):
                     moved = True
             if np.any(base != 0) and moved:
